@@ -456,7 +456,12 @@ def fix_reimported_names(source: str) -> str:
     module_from_imports = collections.defaultdict(set)
 
     import_insert_lineno = min(
-        (node.lineno for node in core.walk(root, (ast.ImportFrom, ast.Import))), default=-1
+        (
+            node.lineno
+            for node in core.walk(root, (ast.ImportFrom, ast.Import))
+            if not (isinstance(node, ast.ImportFrom) and node.module == "__future__")
+        ),
+        default=-1,
     )
     if import_insert_lineno == -1:
         return source  # No imports, nothing to do
